@@ -21,7 +21,7 @@ MANIFEST = {
     'note': 'Speeds taken non-negative for the order proofs (is_sign_positive := true); the sign convention of min_speed is covered by C02-1.',
 }
 EXPLANATION = 'Per-site lower-bound obligations on insert_speed and pre-value provenance of the restore decision.'
-RULES = ['C13-1.sites', 'C13-2.restore', 'C13-3.merge', 'C13-4.empty', 'C13-5.search', 'C13-6.add_speeds', 'C13-7.seed', 'C13-8.canonical', 'C13-9.gate']
+RULES = ['C13-1.sites', 'C13-2.restore', 'C13-3.merge', 'C13-4.empty', 'C13-5.search', 'C13-6.add_speeds', 'C13-7.seed', 'C13-8.canonical', 'C13-9.gate', 'C13-10.sorted']
 ASSUMPTIONS = ['speeds are non-negative in the order proofs', 'idx_start / idx_end are the positions their search loops are meant to find (not decided)']
 
 
@@ -32,6 +32,7 @@ def run(ctx):
     SP.add_speeds(ctx, 'C13', 'ge')
     SP.seed(ctx, 'C13')
     SP.canonical(ctx)
+    SP.sortedness(ctx)
     # which restrictions are posted for this train at all: the arm table of speed_set_applies, the choice of a link's speed set and
     # min_speed are equalities (direction-free), so a wrong gate lowers the profile as readily as it raises it (shared with C02)
     from .common import RuleProxy
